@@ -22,7 +22,8 @@ func init() {
 			"C15.5 the relay goroutines return only on the read/accept error edge after calling DeleteAllocation(a.fiveTuple) (other returns are reported as advisories), and the server loops close the manager / delete the connection's allocation after their read loop ends; " +
 			"C15.6 every lifecycle callback is invoked in the function that performs the insert/remove it reports and only on the path where that insert/remove actually happened; " +
 			"C15.7 in CreateAllocation no return lies between arming the lifetime timer and publishing the allocation in the table, and the insert precedes the created-callback; " +
-			"C15.8 (=C04.2) every 5-tuple handed to the manager — including the teardown tuple after a stream connection ends — is built from the addresses of that very request/connection.",
+			"C15.8 (=C04.2) every 5-tuple handed to the manager — including the teardown tuple after a stream connection ends — is built from the addresses of that very request/connection; " +
+			"C15.9 the bind-timeout of a peer TCP connection releases it through the allocation object it was registered on (captured), not through a lookup among the live allocations — which would miss a connection registered on an allocation that has ended.",
 		NotCovered: "'exactly once', counts at quiescence and goroutine drain are dynamic; what a relay generator or callback does internally.",
 		Run:        runC15,
 	})
@@ -42,6 +43,7 @@ func runC15(c *Ctx) {
 	// 5-tuple it was created under (shared with C04.2): a tuple built from anything else
 	// (the listener's address) names no allocation and the release silently does nothing
 	ruleRequestTuples(c, "C15.8")
+	ruleBindTimerReleasesByIdentity(c, "C15.9")
 }
 
 // ---------------------------------------------------------------------------------
@@ -1737,4 +1739,80 @@ func valuesExclusive(w *World, a, b *ssa.Store) bool {
 		}
 	}
 	return true
+}
+
+// ruleBindTimerReleasesByIdentity (C15.9): a peer TCP connection that is never bound is
+// released by its bind timer. Allocation.Close sweeps tcpConnections once; a connection that
+// gets registered afterwards (a Connect whose dial completes late, an accept racing teardown)
+// has only the timer. The timer's release therefore must not depend on the owning allocation
+// still being registered in Manager.allocations.
+func ruleBindTimerReleasesByIdentity(c *Ctx, rule string) {
+	w := c.W
+	c.Rule(rule, "bind-timeout release by identity: no function reachable from the closure armed as tcpConnection.bindTimer reads Manager.allocations (lookup or range)", 1)
+	tbl := w.Field("allocation", "Manager", "allocations")
+	bt := w.Field("allocation", "tcpConnection", "bindTimer")
+	afterFunc := timeAfterFunc(w)
+	n := 0
+	for _, fn := range w.ModFns {
+		w.eachInstr(fn, func(in ssa.Instruction) {
+			st, ok := in.(*ssa.Store)
+			if !ok {
+				return
+			}
+			fa, ok := st.Addr.(*ssa.FieldAddr)
+			if !ok || fieldOf(fa) != bt {
+				return
+			}
+			call, _ := callOf(w.resolveLoad(st.Val))
+			if call == nil || call.Call.StaticCallee() != afterFunc || len(call.Call.Args) != 2 {
+				return
+			}
+			var body *ssa.Function
+			switch a := call.Call.Args[1].(type) {
+			case *ssa.MakeClosure:
+				body = w.closureBody(a)
+			case *ssa.Function:
+				body = a
+			}
+			n++
+			c.Anchor(rule, "bindTimer closure")
+			if body == nil {
+				c.Bad(rule, fname(fn), "bindTimer", w.instrPos(in), "cannot identify the function armed as bind timer")
+				return
+			}
+			bad := ""
+			seen := map[*ssa.Function]bool{}
+			var visit func(f *ssa.Function, d int)
+			visit = func(f *ssa.Function, d int) {
+				if f == nil || seen[f] || d > 4 || len(f.Blocks) == 0 || !w.IsMod[f] {
+					return
+				}
+				seen[f] = true
+				w.eachInstr(f, func(i2 ssa.Instruction) {
+					switch x := i2.(type) {
+					case *ssa.Lookup:
+						if _, f2, isL := fieldLoad(x.X); isL && f2 == tbl {
+							bad = w.instrPos(i2)
+						}
+					case *ssa.Range:
+						if _, f2, isL := fieldLoad(x.X); isL && f2 == tbl {
+							bad = w.instrPos(i2)
+						}
+					case ssa.CallInstruction:
+						visit(x.Common().StaticCallee(), d+1)
+					}
+				})
+			}
+			visit(body, 0)
+			if bad == "" {
+				c.OK(rule, fname(fn), "bindTimer", w.instrPos(in), "the timer releases through the allocation it was registered on")
+			} else {
+				c.Bad(rule, fname(fn), "bindTimer", w.instrPos(in), "the bind timer finds the connection's owner by searching Manager.allocations (at "+bad+"): for a connection registered on an allocation that has since ended the search finds nothing, the release is skipped, and the peer TCP connection outlives its allocation for good")
+			}
+		})
+	}
+	if n == 0 {
+		c.Anchor(rule, "bindTimer closure")
+		c.Bad(rule, "-", "bindTimer", "-", "no time.AfterFunc stored into tcpConnection.bindTimer: anchor gone")
+	}
 }
